@@ -130,10 +130,14 @@ def rule_side_channel(ctx):
     sg = prog.sqlglot
     m = prog.mod("transforms")
     written: dict[str, list[tuple[str, set[str], ast.AST]]] = {}
-    for st in stages(prog):
-        if st.fn is None:
-            continue
-        fn = st.fn
+    stage_fns = {st.name: st.fn for st in stages(prog) if st.fn is not None}
+    # helpers of the stages write side-channel keys too (a stage split into private functions): scan the whole module
+    all_fns = dict(stage_fns)
+    for q, f in m.functions.items():
+        if "." not in q and q not in all_fns:
+            all_fns[q] = f
+    for fname, fn in all_fns.items():
+        st = type("S", (), {"name": fname})()
         s = summary(prog, fn)
         param = fn.args.args[0].arg if fn.args.args else None
         # (a) <x>.args["k"] = ...
